@@ -503,7 +503,7 @@ class C17(object):
             "1..40 operations drawn from addcolumn/setcolumn/__setitem__/__setattr__ (scalar, array)/in-place writes "
             "through each view/filter/removerows/sortby/reorder/copy/copyrows/get_bigarray/set_bigarray on up to three "
             "live objects; model and system compared after every operation; distinct = distinct set of model states "
-            "reached in the history; non-trivial = at least 3 operations changed the model; also: reading an HDF5/text file into an object in use, and invalid arguments (wrong length, ragged, str/set/dict, wrong-length reorder) that must be refused without changing the object")
+            "reached in the history; non-trivial = at least 3 operations changed the model; also: reading an HDF5/text file into an object in use, and invalid arguments (wrong length, ragged, str/set/dict, wrong-length reorder) that must be refused without changing the object, big-endian and read-only columns, and (0.4 % of runs) 2-3 Python caller threads under the thread scheduler applying row operations to tables of their own")
     components = {"real": ["ImageD11.columnfile (columnfile, newcolumnfile, colfile_from_dict, colfile_to_hdf, colfile_from_hdf, "
                            "readfile, writefile)", "ImageD11.parameters", "h5py/libhdf5 and the file system (private directory)"],
                   "stub": ["nothing is stubbed; the operation generator and the reference model (ordered dict of lists) are /verif's"]}
